@@ -313,6 +313,12 @@ func (r *rateLimiter[R]) acquirePermitsWithMaxWait(ctx context.Context, exec fai
 		case <-timer.C:
 		case <-exec.Canceled():
 			timer.Stop()
+			// Report what the execution was canceled with, rather than an error recorded for an earlier attempt
+			if execInternal, ok := exec.(policy.ExecutionInternal[R]); ok {
+				if canceled, cancelResult := execInternal.IsCanceledWithResult(); canceled {
+					return cancelResult.Error
+				}
+			}
 			return exec.LastError()
 		}
 	}
